@@ -916,10 +916,22 @@ class W3LeafMatcher(LeafMatcher):
         # Consume first block
         self._goto(self._baseoffset)
 
+    def copy(self):
+        m = self.__class__(self._postfile, self._startoffset, self._length,
+                           self.format, term=self._term,
+                           byteids=self._byteids, scorer=self.scorer)
+        if self._atend:
+            m._atend = True
+        else:
+            m._goto(self._blockoffset)
+            m._i = self._i
+        return m
+
     def _goto(self, position):
         # Read the posting block at the given position
 
         postfile = self._postfile
+        self._blockoffset = position
 
         # Reset block data -- we'll lazy load the data from the new block as
         # needed
